@@ -80,6 +80,16 @@ def qlit(x) -> str:
     return f'(q "{f.numerator}/{f.denominator}")'
 
 
+def flit(x) -> str:
+    """OCaml float literal (parenthesised so that negative values are safe as arguments)."""
+    v = float(x)
+    if v != v:
+        return "nan"
+    if v in (float("inf"), float("-inf")):
+        return "infinity" if v > 0 else "neg_infinity"
+    return f"({v!r})"
+
+
 def zlit(i) -> str:
     return f'(z "{int(i)}")'
 
